@@ -63,6 +63,13 @@ pub fn run(modelrun: &str) {
                     let q1 = OrderQueue::from_vec(v);
                     listing = list_str(&q1.to_vec(), |o| str_of_order(o));
                     let text = q1.to_string();
+                    if text.len() > 8 {
+                        // a damaged copy of the same text first (the LAST order is broken, the earlier ones are fine): its
+                        // rejection must leave nothing behind that the next, successful, parse could pick up
+                        let mut bad = text[..text.len() - 2].to_string();
+                        bad.push_str("\u{e9}x]");
+                        let _ = catch_unwind(AssertUnwindSafe(|| OrderQueue::from_str(&bad).map(|q| q.len())));
+                    }
                     match OrderQueue::from_str(&text) {
                         Ok(n) => {
                             q = n;
@@ -74,6 +81,10 @@ pub fn run(modelrun: &str) {
                 "QFROMJSON" => {
                     let v: Vec<Arc<OrderType<()>>> = parse_list(t[1]).into_iter().map(Arc::new).collect();
                     let text = serde_json::to_string(&OrderQueue::from_vec(v)).unwrap();
+                    if text.len() > 8 {
+                        let bad = format!("{}x]", &text[..text.len() - 3]);
+                        let _ = catch_unwind(AssertUnwindSafe(|| serde_json::from_str::<OrderQueue>(&bad).map(|q| q.len())));
+                    }
                     let listed: Vec<OrderType<()>> = serde_json::from_str(&text).unwrap_or_default();
                     listing = list_str(&listed, |o| str_of_order(o));
                     match serde_json::from_str::<OrderQueue>(&text) {
